@@ -101,12 +101,13 @@ type SpecSet struct {
 	Props     map[string][]string  // property id -> function keys / lemma names
 	Bounded   map[string][]string  // property id -> "pkgdir:TestName" bounded stand-ins
 	Ghost     []QVar                // ghost state components (name, sort text)
+	History   map[string]bool       // ghost history components (exempt from frame obligations)
 	Shared    map[string][]string   // pkgdir -> shared state components ("Type.field" or ghost name)
 	RG        map[string][]*Axiom   // pkgdir -> rely / guar / ginv clauses (Axiom.Kind)
 }
 
 func newSpecSet() *SpecSet {
-	return &SpecSet{Funcs: map[string]*SpecFunc{}, Contracts: map[string]*Contract{}, Props: map[string][]string{}, Bounded: map[string][]string{}, Shared: map[string][]string{}, RG: map[string][]*Axiom{}}
+	return &SpecSet{Funcs: map[string]*SpecFunc{}, Contracts: map[string]*Contract{}, Props: map[string][]string{}, Bounded: map[string][]string{}, Shared: map[string][]string{}, RG: map[string][]*Axiom{}, History: map[string]bool{}}
 }
 
 var directiveKW = map[string]bool{"pure": true, "opaque": true, "axiom": true, "lemma": true, "func": true, "extern": true,
@@ -282,6 +283,12 @@ func (ss *SpecSet) loadSpecFile(path string, prefixed bool, pkgDir string) error
 		case strings.HasPrefix(d, "ghost "):
 			// ghost var name sort
 			f := strings.Fields(d)
+			if len(f) >= 5 && f[1] == "history" && f[2] == "var" {
+				// a write-only history flag/counter: exempt from frame obligations
+				ss.Ghost = append(ss.Ghost, QVar{f[3], strings.Join(f[4:], " ")})
+				ss.History[f[3]] = true
+				continue
+			}
 			if len(f) < 4 || f[1] != "var" {
 				return fail(i, "ghost var <name> <smt sort>")
 			}
